@@ -133,7 +133,7 @@ PROPS = {
     "C02": _kv("C02", "Sequential part proved in full on the model: a conditional write (every entry point that carries an expected CAS) that succeeds had an expected CAS equal to the document's current CAS (0 = no document; for WriteCas no live document), and one that fails changes nothing (C02_holds, all histories). The two-writer race: for every schedule of the conditional-write loop a successful write was made on the CAS it read (Conc.v, C03); on the code, the lin family's certificate check includes the one-winner rule (no two successful conditional writes carry the same expected CAS) under real goroutine races, WithMeta writers included.", extra=[{"family": "lin"}]),
     "C05": _kv("C05", "Full proof on the model: in every reachable store the tombstone column equals 'value IS NULL' (C05_flag_iff_nobody), and every history is accepted by the checker: deletion opcode iff no body, Delete/Remove keep exactly the system xattrs and clear the expiry, a body write onto a body-less key leaves only the supplied xattrs (C05_holds); PurgeTombstones removes exactly the body-less rows (C05_purge on the store, and the trace-level purge rule: C05_holds_with_purge); a document removed by a firing of the expiry timer is left exactly as Delete would leave it - no body, no expiry, only its system xattrs (C05_expiry_is_a_removal: the step checker chk_step_expiry, which applies the row rule of Delete to every document a firing removed, accepts every history of the model; KvExpiry.v).", model_chk=True),
     "C06": _kv("C06", "Full proof on the model: for every history an insert-style write (Add, AddRaw, WriteCas AddOnly / cas 0, WriteResurrectionWithXattrs) succeeds only on a key without a body and a refusal happens only on a key with a body and leaves it untouched; WriteWithXattrs cas 0 succeeds only on an absent key (C06_holds)."),
-    "C07": _kv("C07", "Full proof on the model: an xattr-only write changes exactly the named xattrs and keeps body, datatype and (unless given) expiry; a body-only write to a live document keeps its xattrs; a failed call changes nothing (C07_holds; frame lemmas over apply_xattrs / xattrs_remove for all xattr maps and name lists). Macro expansion values are compared exactly by the correspondence (CAS string and CRC32c computed in Coq)."),
+    "C07": _kv("C07", "Full proof on the model: an xattr-only write changes exactly the named xattrs and keeps body, datatype and (unless given) expiry; a body-only write to a live document keeps its xattrs; a failed call changes nothing (C07_holds; frame lemmas over apply_xattrs / xattrs_remove for all xattr maps and name lists). Macro expansion values are compared exactly by the correspondence (CAS string and CRC32c computed in Coq). The frame in full: a call leaves every document but the addressed one - in its own collection and in every other, the same key included - exactly as it was (body, CAS, expiry, every xattr, revision, dump event); the checker includes this rule and accepts every model history (C07_frame_in_full).", model_chk=True),
     "C08": _kv("C08", "A document removed by a firing of the expiry timer gets exactly one event, the rendering of its tombstone (C08_expiry_is_a_removal, KvExpiry.v: every due document is removed exactly once and chk_step_expiry - the row rule of Delete applied to each - accepts every model history). Sequential part proved in full on the model: every successful CAS-stamping call posts exactly one event equal to the rendering of the document as stored (key, opcode, body, xattrs, datatype bits, CAS, expiry, revision), every failed/refused call and every touch posts none (C08_holds, all histories). Ordering part: Feed.v splits a write into Commit / Snapshot / Push and a feed into Backfill / Register / Deliver / Stop as the code does; the full statement (every interleaving keeps CAS order) is REFUTED on the faithful model with a replayable witness (C08_order_refuted: the known finding KF-C08-order, reproduced on the code by the sched family through the cas.beforePost / post.snapshot hooks); the converse is PROVED for every schedule in which a write's commit, snapshot and push, and a feed's backfill and registration, are not separated by other actions: every run of every feed is in strictly increasing CAS order (C08_order_holds_when_posting_is_atomic, FeedOrder.v) - so the inversion needs exactly that window; and every schedule outside that window is checked: the sched family executes generated action lists on the real code under the hooks and compares deliveries, CAS values and checkpoints exactly with the model. The ckpt family (no hooks: a writer, a consumer that falls behind so that whole batches queue up, stops and resumes) checks that every run of the feed is in increasing CAS order and that the final version of every document arrives.", extra=[{"family": "sched", "chk": "sched_excused_C08", "strict_chk": "sched_strict_C08"}, {"family": "ckpt"}]),
     "C09": _kv("C09", "Sequential part proved on the model's store: the backfill of a feed started from CAS s is, in CAS order, exactly the current version of every document of the collection (tombstones included) with CAS >= s (C09_complete, C09_sorted, C09_from_start, for every reachable store: C09_tables_ok), each rendered by the same function as live events (C09_same_rendering, C09_live_equals_stored). The executable trace checker (dump feeds from generated start CAS values: 0, a document's CAS, CAS+1, stale, beyond) is evaluated on implementation traces and on the model's traces; that it accepts every model trace is checked by evaluation, not proved. No-gap half: the full statement is REFUTED on the faithful interleaving model Feed.v with a replayable witness (C09_gap_refuted: the known finding KF-C09-gap, a write committing between the backfill query and registration that reads the feed list before registration), reproduced on the code by the sched family through the feed.preregister / post.snapshot hooks; every schedule outside that window (e.g. a write that commits in the window but posts after registration) is compared exactly with the model: partial. The ckpt family (no hooks: resume backfills followed by live events behind a consumer that falls behind, deletions included) checks order and that nothing is missing.", model_chk=True, extra=[{"family": "sched", "chk": "sched_excused_C09", "strict_chk": "sched_strict_C09"}, {"family": "ckpt"}]),
     "C10": {
